@@ -89,7 +89,9 @@ class C02(HistoryCheck):
     RULE = ("after each copy-on-write helper / deepcopy of a seeded history: identity-graph intersection of receiver and "
             "result minus argument graph minus do_not_copy values must be empty (static), and a tail of <=6 in-place "
             "operations (API writes at any depth, direct container mutation, some aborted by an injected callback fault) on "
-            "either side must leave the snapshot of the other side unchanged (dynamic). evaluations = copies checked + tail "
+            "either side must leave the snapshot of the other side unchanged (dynamic); a 'copy' that is the receiver itself is "
+            "reported unless the call was switched off (_if=False / UNCHANGED); transforms include ones that rebuild a container out "
+            "of the elements they were handed. evaluations = copies checked + tail "
             "operations; distinct_nontrivial = distinct (helper family, verb, attribute kind, tail op kind, outcome) where the "
             "copied instance held at least one mutable node.")
 
